@@ -61,6 +61,24 @@ def rnd_angles(rng, dim):
     return [float(rng.choice([0.0, np.pi / 2, rng.uniform(-np.pi, np.pi)])) for _ in range(n)]
 
 
+LEN_CHOICES = [2.0, 3.0, 5.0, 7.0, 11.0, 13.0, 17.0]      # well separated: never inside the np.isclose band of the generator's model comparison
+
+
+def rnd_len_list(rng, dim, cur_len, cur_anis):
+    """a per-axis len_scale list [l0, l1, ...] (dim entries, dim >= 2) and the anisotropy ratios l_i / l_0 it defines (what
+    set_len_anis computes); never a change that is inside the np.isclose band without being the identity (known finding F4)"""
+    for _ in range(20):
+        l0 = float(rng.choice(LEN_CHOICES))
+        ls = [l0] + [float(l0 * a) for a in rnd_anis(rng, dim)]
+        new = [float(np.float64(v) / np.float64(l0)) for v in ls[1:]]
+        old = [float(a) for a in np.asarray(cur_anis, dtype=float)[: dim - 1]]
+        all_close = bool(np.isclose(l0, cur_len)) and all(np.isclose(n_, o_) for n_, o_ in zip(new, old))
+        if all_close and not (l0 == cur_len and new == old):
+            continue
+        return ls, new
+    return None, None
+
+
 def field_scale(g):
     return float(np.sum(np.abs(g._spectrum_factor) * (np.abs(g._z_1) + np.abs(g._z_2)))) + 1e-300
 
@@ -161,9 +179,18 @@ def corr_static(ctx, n, dis, dist, samples):
     ops2, cases2 = [], []
     for k, (case, g, m, srf, pos, mno, k_norm) in enumerate(cases):
         dim = m.dim
-        what = str(rng.choice(["anis", "angles", "both"])) if dim > 1 else "len_scale"
+        what = str(rng.choice(["anis", "angles", "both", "len_scale-list", "len_scale-list+angles"])) if dim > 1 else "len_scale"
         new_anis = rnd_anis(rng, dim) if what in ("anis", "both") else [float(a) for a in np.asarray(srf.model.anis)[: dim - 1]]
-        new_angles = rnd_angles(rng, dim) if what in ("angles", "both") else None
+        new_angles = rnd_angles(rng, dim) if what in ("angles", "both", "len_scale-list+angles") else None
+        if what.startswith("len_scale-list"):
+            # one length scale per axis: redefines the main length scale AND the anisotropy ratios (l_i / l_0)
+            ll, ratios = rnd_len_list(rng, dim, float(srf.model.len_scale), srf.model.anis)
+            if ll is None:
+                what = "anis"
+                new_anis = rnd_anis(rng, dim)
+            else:
+                new_anis = ratios
+                srf.model.len_scale = ll
         if what == "len_scale":
             srf.model.len_scale = float(srf.model.len_scale) * 1.75
         if what in ("anis", "both"):
@@ -368,8 +395,8 @@ def correspondence(ctx):
     return {"evaluations": ev1 + ev2 + ev3, "distinct_nontrivial": k1 + k3,
             "rule": "random dim 1-3, model class, anisotropy, rotation, periods (incl. former arange-length cases), even mode "
                     "counts, seeds, off-grid points; grid/delta_k/generator output compared bit for bit, spectrum factor and "
-                    "isometrize at 1e-14/1e-13, SRF output at 1e-9*scale, and again after an in-place change of anisotropy / rotation "
-                    "(1-D: length scale) for a call WITHOUT position argument at the stored positions; update histories of 1-9 calls (model / period / "
+                    "isometrize at 1e-14/1e-13, SRF output at 1e-9*scale, and again after an in-place change of anisotropy / rotation / per-axis len_scale "
+                    "list (new main length scale and ratios l_i/l_0) (1-D: length scale) for a call WITHOUT position argument at the stored positions; update histories of 1-9 calls (model / period / "
                     "mode_no / seed / mixed / malformed) compared after every call on public state and against a fresh "
                     "generator; distinct = distinct generator configurations / histories",
             "samples": samples, "disagreements": dis[:10], "distribution": dist}
@@ -508,12 +535,14 @@ def search_histories(ctx, n, viol):
         trace = []
         for step in range(int(rng.randint(1, 6))):
             kind = str(rng.choice(["period", "mode_no", "model", "inplace_anis", "inplace_len", "inplace_angles", "update_same_model",
-                                   "update_seed_period", "odd"]))
+                                   "update_seed_period", "odd", "inplace_lenlist", "inplace_lenlist", "inplace_intscale_list"]))
+            if kind == "inplace_intscale_list" and TAGS[tag][0] not in ("Gaussian", "Exponential", "Matern"):
+                kind = "inplace_lenlist"        # per-axis integral scales only where the integral scale is a plain multiple of the length scale
             g = srf.generator
             same_model = False
             # ---- what the step will change (drawn first: the positions stored BEFORE the change contain the periodic images
             #      with respect to the settings AFTER it)
-            new = dict(period=period, mno=mno, tag=tag, anis=anis, angles=angles, len_scale=None, bad=None, sub=None)
+            new = dict(period=period, mno=mno, tag=tag, anis=anis, angles=angles, len_scale=None, bad=None, sub=None, lenlist=None)
             if kind == "period":
                 new["period"] = rnd_period(rng, dim)
             elif kind == "mode_no":
@@ -526,6 +555,11 @@ def search_histories(ctx, n, viol):
                 new["len_scale"] = float(rng.choice([2.0, 3.0, 5.0, 7.0, 11.0, 13.0, 17.0]))   # well separated: not inside the isclose band
             elif kind == "inplace_angles" and dim > 1:
                 new["angles"] = rnd_angles(rng, dim)
+            elif kind in ("inplace_lenlist", "inplace_intscale_list") and dim > 1:
+                # one length scale (integral scale) per axis: the ratios become l_i / l_0, the main length scale l_0
+                ll, ratios = rnd_len_list(rng, dim, float(srf.model.len_scale), srf.model.anis)
+                if ll is not None:
+                    new["lenlist"], new["anis"] = ll, ratios
             elif kind == "update_same_model":
                 same_model = True
                 new["sub"] = bool(rng.rand() < 0.5)
@@ -538,6 +572,24 @@ def search_histories(ctx, n, viol):
                 new["period"] = rnd_period(rng, dim)
             elif kind == "odd":
                 new["bad"] = [v + 1 for v in rnd_mno(rng, dim)]
+            # a change of (len_scale, anis, angles) that stays inside the np.isclose band of the generator's model comparison without being
+            # the identity is the class of the known finding F4 (search_isclose reports it with its own key): draw another step
+            if kind.startswith("inplace_") or (kind == "model" and new["tag"] == tag):
+                cur_geo = [float(srf.model.len_scale)] + [float(a) for a in np.asarray(srf.model.anis)[: dim - 1]] + [float(a) for a in np.asarray(srf.model.angles)]
+                if kind == "inplace_intscale_list" and new["lenlist"] is not None:
+                    import copy
+                    probe = copy.deepcopy(srf.model)
+                    probe.integral_scale = new["lenlist"]
+                    nl = float(probe.len_scale)
+                elif new["lenlist"] is not None:
+                    nl = new["lenlist"][0]
+                elif new["len_scale"] is not None:
+                    nl = new["len_scale"]
+                else:
+                    nl = TAGS[new["tag"]][2] if kind == "model" else cur_geo[0]
+                new_geo = [float(nl)] + [float(a) for a in new["anis"]] + [float(a) for a in new["angles"]]
+                if len(new_geo) == len(cur_geo) and new_geo != cur_geo and bool(np.all(np.isclose(new_geo, cur_geo))):
+                    continue
             axes_new = np.atleast_2d(mk_model(new["tag"], dim, new["anis"], new["angles"]).main_axes()) if dim > 1 else np.array([[1.0]])
             try:
                 stored = store_positions(srf, rng, dim, new["period"], axes_new, not any(a != 0 for a in new["angles"]))
@@ -558,6 +610,11 @@ def search_histories(ctx, n, viol):
                     srf.model.len_scale = new["len_scale"]
                 elif kind == "inplace_angles" and dim > 1:
                     angles = new["angles"]; srf.model.angles = angles
+                elif kind == "inplace_lenlist" and new["lenlist"] is not None:
+                    anis = new["anis"]; srf.model.len_scale = new["lenlist"]
+                elif kind == "inplace_intscale_list" and new["lenlist"] is not None:
+                    # per-axis integral scales: same ratios, main length scale = what makes the main integral scale l_0
+                    anis = new["anis"]; srf.model.integral_scale = new["lenlist"]
                 elif kind == "update_same_model":
                     if new["sub"]:
                         period = new["period"]; g.update(model=srf.model, period=period)
@@ -729,5 +786,6 @@ def search(ctx, deep=False):
     return {"evaluations": ev0 + ev1 + ev2 + ev3 + ev4, "violations": out[:8],
             "summary": f"{ev0} replays of the F1-F3 inputs; {ev1} periodicity residuals of SRF(generator='Fourier') at off-grid points along (rotated) main axes, dim 1-3 "
                        f"(worst residual/scale {worst:.2e}); {ev2} mode-count / integer-multiple checks of the grid; {ev3} checks along "
-                       f"setter / update / in-place model-change histories (periodic with the new settings, equal to a fresh SRF, "
+                       f"setter / update / in-place model-change histories incl. per-axis len_scale / integral_scale LIST assignments that redefine the anisotropy ratios "
+                       f"(periodic with the new settings and ratios at given and at stored positions, equal to a fresh SRF, "
                        f"state untouched by a rejected odd mode_no); isclose-band anisotropy change (known finding)"}
